@@ -66,31 +66,85 @@ def module_for(prop):
     return importlib.import_module('mc.props.%s' % prop.lower())
 
 
+def _child_replay_case(modname, case):
+    mod = importlib.import_module(modname)
+    return [(f['clause'], f.get('signature') or '', jsonable(f.get('detail'))) for f in mod.replay(case)]
+
+
+def _child_minimise(modname, case, clause):
+    mod = importlib.import_module(modname)
+    return json.loads(json.dumps(jsonable(mod.minimise(case, clause))))
+
+
+def _child_replay_sequence(ctx):
+    """Re-executes the recorded chunk context (the executions that preceded the failing one in its
+    process) followed by the failing execution; returns the violations of the last one."""
+    if ctx['engine'] == 'product':
+        func = getattr(importlib.import_module(ctx['module']), ctx['func'])
+        out = None
+        for it in list(ctx['prefix']) + [ctx['item']]:
+            out = func(it)
+        viols = out.get('viols', [])
+    else:
+        spec = ctx['_spec']
+        if ctx['kind'] == 'initial':
+            viols = spec.check_initial(tuple(tuple(e) for e in ctx['item']))[1]
+        else:
+            for h in ctx['prefix']:
+                spec.expand(tuple(tuple(e) for e in h))
+            outs = spec.expand(tuple(tuple(e) for e in ctx['item']))
+            viols = [v for ev, key, vs, tags in outs if list(ev) == list(ctx['event']) for v in vs]
+    return [(v['clause'], v.get('signature') or '', jsonable(v.get('detail')), jsonable(v.get('case'))) for v in viols]
+
+
 def confirm_and_write(prop, mod, v):
-    """Replay the violation twice from scratch; identical observations are required."""
+    """Replay the violation twice, each time in a pristine process; identical observations required.
+
+    1. stand-alone: the stored case alone reproduces the clause (the normal situation);
+    2. otherwise with its recorded chunk context (the executions that ran before it in the same
+       process): the violation depends on state that leaks between executions - still a genuine,
+       deterministic violation, and the replay file carries the whole sequence;
+    3. otherwise the harness is at fault (exit 2, never a verdict)."""
+    import base64
+    import pickle
+    from .core import in_child
+    modname = mod.__name__
     case = json.loads(json.dumps(jsonable(v['case'])))   # exactly what the file will hold
-    obs = []
-    for _ in range(2):
-        fails = mod.replay(case)
-        obs.append(sorted((f['clause'], f.get('signature') or '') for f in fails))
-    if obs[0] != obs[1]:
-        raise HarnessError('replay of %s is not deterministic: %r vs %r' % (v['clause'], obs[0], obs[1]))
-    if v['clause'] not in [c for c, _ in obs[0]]:
-        raise HarnessError('violation %s did not reproduce on replay (got %r); case=%r' % (
-            v['clause'], obs[0], case))
+    ctx = v.get('_ctx')
+    obs = [in_child(_child_replay_case, modname, case) for _ in range(2)]
+    keys = [sorted((c, s) for c, s, _ in o) for o in obs]
+    if keys[0] != keys[1]:
+        raise HarnessError('replay of %s is not deterministic: %r vs %r' % (v['clause'], keys[0], keys[1]))
     detail = v.get('detail')
-    if hasattr(mod, 'minimise'):
-        case = json.loads(json.dumps(jsonable(mod.minimise(case, v['clause']))))
-        again = [f for f in mod.replay(case) if f['clause'] == v['clause']]
-        if not again:
-            raise HarnessError('minimised case of %s does not reproduce' % v['clause'])
-        detail = again[0].get('detail', detail)
-    v['detail'] = detail
     rec = {'property': prop, 'clause': v['clause'], 'signature': v.get('signature'),
-           'detail': jsonable(detail), 'case': case,
            'replay_cmd': '/venv/bin/python -m mc.run --replay <this file>'}
+    if v['clause'] in [c for c, _ in keys[0]]:
+        if hasattr(mod, 'minimise'):
+            case = in_child(_child_minimise, modname, case, v['clause'])
+            again = [d for c, s, d in in_child(_child_replay_case, modname, case) if c == v['clause']]
+            if not again:
+                raise HarnessError('minimised case of %s does not reproduce' % v['clause'])
+            detail = again[0] if again[0] is not None else detail
+        rec.update({'kind': 'case', 'case': case, 'detail': jsonable(detail)})
+    else:
+        if ctx is None:
+            raise HarnessError('violation %s did not reproduce on replay (got %r); case=%r' % (
+                v['clause'], keys[0], case))
+        seq = [in_child(_child_replay_sequence, ctx) for _ in range(2)]
+        k2 = [sorted((c, s) for c, s, _, _ in o) for o in seq]
+        if k2[0] != k2[1] or v['clause'] not in [c for c, _ in k2[0]]:
+            raise HarnessError('violation %s reproduces neither stand-alone (%r) nor with its chunk context (%r / %r); '
+                               'case=%r' % (v['clause'], keys[0], k2[0], k2[1], case))
+        blob = {k: val for k, val in ctx.items()}
+        rec.update({'kind': 'sequence', 'case': case, 'detail': jsonable(detail), 'history_dependent': True,
+                    'note': 'does not reproduce from a pristine process with this case alone: it needs the %d '
+                            'execution(s) that preceded it in the same process (recorded below)' % len(ctx['prefix']),
+                    'context': jsonable({k: val for k, val in ctx.items() if k != '_spec'}),
+                    'context_pickle': base64.b64encode(pickle.dumps(blob)).decode()})
+        v['signature'] = v.get('signature') or 'history-dependent'
+    v['detail'] = detail
     os.makedirs(REPLAY_DIR, exist_ok=True)
-    path = os.path.join(REPLAY_DIR, '%s-%s.json' % (prop, hexdigest((v['clause'], case))))
+    path = os.path.join(REPLAY_DIR, '%s-%s.json' % (prop, hexdigest((v['clause'], case, rec['kind']))))
     with open(path, 'w') as f:
         json.dump(rec, f, indent=1, sort_keys=True)
     return path
@@ -181,7 +235,13 @@ def run_replay(path):
     with open(path) as f:
         rec = json.load(f)
     mod = module_for(rec['property'])
-    fails = mod.replay(rec['case'])
+    if rec.get('kind') == 'sequence':
+        import base64
+        import pickle
+        ctx = pickle.loads(base64.b64decode(rec['context_pickle']))
+        fails = [{'clause': c, 'signature': s_, 'detail': d} for c, s_, d, _ in _child_replay_sequence(ctx)]
+    else:
+        fails = mod.replay(rec['case'])
     hit = [f for f in fails if f['clause'] == rec['clause']]
     for f in fails:
         print('replayed clause=%s detail=%s' % (f['clause'], json.dumps(jsonable(f.get('detail')))[:800]))
